@@ -210,6 +210,9 @@ class SymExec:
                 st.env[name] = Ptr(name, 0)
                 self._initlist(name, init, st, ())
                 return
+            if init.get("kind") in ("CXXConstructExpr", "CXXTemporaryObjectExpr") and not C.kids(init) and "fvec4" not in C.qtype(init):
+                st.env.pop(name, None)      # default-constructed object: no value to track
+                return
             st.env[name] = self.expr(ks[-1], st)
         else:
             st.env.pop(name, None)
@@ -780,7 +783,7 @@ def _intrinsic(name, a, st):
     return NotImplemented
 
 
-_MATH_FUNCS = {"sqrt", "cos", "sin", "tan", "acos", "asin", "atan", "atan2", "fabs", "floor", "ceil", "round", "exp", "log", "pow", "fmin", "fmax"}
+_MATH_FUNCS = {"cbrt", "sqrt", "cos", "sin", "tan", "acos", "asin", "atan", "atan2", "fabs", "floor", "ceil", "round", "exp", "log", "pow", "fmin", "fmax"}
 _MATH = {}
 for _f in _MATH_FUNCS:
     for _v in (_f + "f", _f + "l", "__builtin_" + _f, "__builtin_" + _f + "f", "__builtin_" + _f + "l"):
